@@ -48,7 +48,7 @@ func (filters) Runs(tier string) int64 {
 	if tier == "thorough" {
 		return 2000000
 	}
-	return 6000
+	return 30000
 }
 
 func (filters) Meta() core.EngineMeta {
